@@ -312,6 +312,17 @@ def model_apply(st, op):
             edges[(id(u), id(w))] = id(l)
         if d is not None:
             dst[id(path[-1])] = id(d)
+    elif k == "remove_node":  # a junction removed through the networkx graph (with everything attached to it)
+        _, n = op
+        if id(n) in nodes:
+            nodes.remove(id(n))
+        for key in [e_ for e_ in edges if id(n) in e_]:
+            edges.pop(key)
+        org.pop(id(n), None)
+        dst.pop(id(n), None)
+    elif k == "detach":  # `del net.G.nodes[n]["origin" | "destination"]`
+        _, n, what = op
+        (org if what == "origin" else dst).pop(id(n), None)
     elif k == "remove_edge":  # a road closed through the networkx graph the network hands out
         _, u, w = op
         edges.pop((id(u), id(w)), None)
